@@ -147,6 +147,14 @@ def run_shard(sink, tier, seed, shard):  # noqa: C901
                     sink.check(back == s and hash(back) == hash(s) and not diffk, 'same-process/other-dict-mode/' + ','.join(diffk),
                                'a treespec loaded while the other dict-order mode is active is the same treespec', ident, lambda: {k: (base[k], ob[k]) for k in diffk})
                     sink.count('loads-under-other-mode')
+                    # ... and the other way round: DUMPED while the other mode is active, loaded in the default state
+                    with optree.dict_insertion_ordered(not o.insertion, namespace=mode_ns):
+                        data_m = pickle.dumps(s, max(pickles))
+                    back = pickle.loads(data_m)
+                    ob = obs(back)
+                    diffk = [k for k in base if base[k] != ob[k]]
+                    sink.check(back == s and hash(back) == hash(s) and not diffk, 'same-process/dumped-under-other-dict-mode/' + ','.join(diffk),
+                               'a treespec pickled while the other dict-order mode is active is the same treespec', ident, lambda: {k: (base[k], ob[k]) for k in diffk})
                 # treespecs inside a larger pickle (memoised, shared key objects) and next to their own leaves
                 try:
                     bundle = pickle.loads(pickle.dumps([s, (s, {'k': s}), s.children(), s.paths()], pickle.HIGHEST_PROTOCOL))
